@@ -25,10 +25,12 @@ Require Import MW.Ledger.Model MW.Ledger.Spec MW.Ledger.Run.
    model follows the repaired code when the switch is true and the code as found when false *)
 Record fixes := {
   f_removable : bool;   (* removableTxForRemoveWallet also keeps a transaction that spends another managed wallet's coin *)
-  f_rollback : bool     (* Rollback skips the row bookkeeping of a wallet that has no balance row *)
+  f_rollback : bool;    (* Rollback skips the row bookkeeping of a wallet that has no balance row *)
+  f_import_retry : bool; (* the worker retries an import batch that failed on a missing credit instead of dropping the task *)
+  f_start_reorg : bool  (* Start() lets the node's best block go through the reorg logic when there is nothing to catch up by height *)
 }.
-Definition repaired : fixes := {| f_removable := true; f_rollback := true |}.
-Definition as_found : fixes := {| f_removable := false; f_rollback := false |}.
+Definition repaired : fixes := {| f_removable := true; f_rollback := true; f_import_retry := true; f_start_reorg := true |}.
+Definition as_found : fixes := {| f_removable := false; f_rollback := false; f_import_retry := false; f_start_reorg := false |}.
 
 Inductive wst := WReady | WImporting (cursor : Z) | WRemoving.
 
@@ -387,8 +389,9 @@ Fixpoint import_blocks (p : params) (own : owner_fn) (n : node) (k stop : Z)
 (* asyncImport: ONE commit covering the heights (cursor, min(cursor + B, best)] where best is the
    handler's tip; hand-over (status ready) when that reaches best.  [B] is the batch size (1000 in
    the code).  The node [n] is read as it is NOW: it may be ahead of, or on another branch than,
-   the handler's synced chain. *)
-Definition import_batch (p : params) (B : Z) (n : node) (st : xstate) (w : N) : xstate * iout :=
+   the handler's synced chain.  A batch that meets the spend of a coin it does not have
+   (ErrUnexpectedCreditNotFound) made the worker drop the task as found; repaired, it is retried. *)
+Definition import_batch (fx : fixes) (p : params) (B : Z) (n : node) (st : xstate) (w : N) : xstate * iout :=
   match status_of st w with
   | Some (WImporting k) =>
       if memN w (x_dead st) then (st, IOk)
@@ -396,7 +399,7 @@ Definition import_batch (p : params) (B : Z) (n : node) (st : xstate) (w : N) : 
         let best := fst (tip (x_w st)) in
         let stop := Z.min (k + B) best in
         match import_blocks p (own_w st w) n k stop (credits (x_w st), x_brecs st) n with
-        | inr IAbandon => (with_dead st (x_dead st ++ [w]), IAbandon)
+        | inr IAbandon => if f_import_retry fx then (st, IRetry) else (with_dead st (x_dead st ++ [w]), IAbandon)
         | inr e => (st, e)
         | inl (cs, brs) =>
             (with_status (with_brecs (with_w st {| credits := cs; synced := synced (x_w st) |}) brs)
